@@ -1246,6 +1246,15 @@ impl Check for C14 {
         "fault_enumeration"
     }
 
+    fn declared_probes(&self) -> Vec<&'static str> {
+        vec![
+            "fault.component-fail",
+            "probe.dynamic-tree",
+            "probe.dynamic-tree-depth>=6",
+            "probe.operator-value-applied-more-than-once",
+        ]
+    }
+
     fn rule(&self) -> String {
         format!(
             "{} composition shapes (then / then_map / and / map over pair, array, Vec / apply_twice / apply_n_times<0,1,3> / Identity / Constant / \
